@@ -52,6 +52,8 @@ void p_send_thread_signal(int tid, int sig);
 int p_new_child(void);				/* a child created outside the library (plain fork by the application) */
 void p_child_report(int pid, int status);	/* child changes state: status as wait4 would report */
 void sxm_async_deliver(void);
+extern int p_opt_deliveries;			/* also deliver (by choice) at the entry of modelled system calls */
+void p_maybe_deliver(void);
 
 #define P_STATUS_EXITED(code)	(((code) & 0xff) << 8)
 #define P_STATUS_SIGNALED(sig)	((sig) & 0x7f)
